@@ -190,23 +190,23 @@ Proof.
     cbn [option_map] in Hd. apply Some_inj in Hd. subst t. cbn [utf8_encode]. rewrite Hc.
     rewrite (IH _ Hl r' eq_refl t' Er). reflexivity. }
   destruct (b0 <? 128) eqn:E1.
-  { intro H. apply (Hrec r b0 [b0]); [lia|apply utf8_char_1; exact E1|exact H]. }
+  { intro H. change (b0 :: r) with ([b0] ++ r). eapply Hrec; [|apply utf8_char_1; exact E1|exact H]; lia. }
   destruct (in_rng 194 223 b0) eqn:E2.
   { destruct r as [|b1 r1]; [discriminate|]. cbn [length] in Hn. destruct (cont b1) eqn:C1; [|discriminate].
-    intro H. apply (Hrec r1 _ [b0; b1]); [lia|apply utf8_char_2; assumption|exact H]. }
+    intro H. change (b0 :: b1 :: r1) with ([b0; b1] ++ r1). eapply Hrec; [|apply utf8_char_2; assumption|exact H]; lia. }
   destruct (in_rng 224 239 b0) eqn:E3.
   { destruct r as [|b1 [|b2 r2]]; try discriminate. cbn [length] in Hn.
     destruct (if b0 =? 224 then in_rng 160 191 b1 else if b0 =? 237 then in_rng 128 159 b1 else cont b1) eqn:C1;
       cbn [andb]; [|discriminate].
     destruct (cont b2) eqn:C2; [|discriminate].
-    intro H. apply (Hrec r2 _ [b0; b1; b2]); [lia|apply utf8_char_3; assumption|exact H]. }
+    intro H. change (b0 :: b1 :: b2 :: r2) with ([b0; b1; b2] ++ r2). eapply Hrec; [|apply utf8_char_3; assumption|exact H]; lia. }
   destruct (in_rng 240 244 b0) eqn:E4; [|discriminate].
   destruct r as [|b1 [|b2 [|b3 r3]]]; try discriminate. cbn [length] in Hn.
   destruct (if b0 =? 240 then in_rng 144 191 b1 else if b0 =? 244 then in_rng 128 143 b1 else cont b1) eqn:C1;
     cbn [andb]; [|discriminate].
   destruct (cont b2) eqn:C2; cbn [andb]; [|discriminate].
   destruct (cont b3) eqn:C3; [|discriminate].
-  intro H. apply (Hrec r3 _ [b0; b1; b2; b3]); [lia|apply utf8_char_4; assumption|exact H].
+  intro H. change (b0 :: b1 :: b2 :: b3 :: r3) with ([b0; b1; b2; b3] ++ r3). eapply Hrec; [|apply utf8_char_4; assumption|exact H]; lia.
 Qed.
 
 (* valid = is an encoding *)
